@@ -1,9 +1,10 @@
 /-
-Executable model of /repo/compiler/src/build/build.rs (non-test code, lines 1–1041):
-a statement-by-statement transliteration.  Bugs of the Rust code are reproduced, not repaired
+Executable model of /repo/compiler/src/build/build.rs (non-test code, lines 1–1124 at commit 467354e, which added
+`validate_parse_tree`): a statement-by-statement transliteration.  Bugs of the Rust code are reproduced, not repaired
 (the SideEffect arm ignores `left`; the "append the terminator unless the last instruction of the whole
-stream equals it" rule; `nodes[i] = ..` with an index taken from the parse tree panics when it is out of
-range; cyclic parse trees make the work-list loop run forever).
+stream equals it" rule).  `nodes[i] = ..` with an index taken from the parse tree would panic when it is out of
+range, and a cyclic parse tree would make the work-list loop run forever: the model keeps both behaviours
+(`Outcome.panic`, fuel) although `validate_parse_tree` now rejects such trees before the loop starts.
 
 Conventions
 * `usize`/`Data::Size` = `Nat`; `Vec<_>` = `Array _` (`push`, `pop` = `back?` + `pop`).
@@ -638,7 +639,59 @@ def handleParseNode (ctx : Ctx F) (currentRootJump : Nat) (nodeIndex : Nat) (par
   | .infixApply => handleInfixApply ctx nodeIndex parseNode
   | .drop => buildErr                                 -- "Cannot build a Drop definition"
 
-/-! ### `build` (build.rs 158–260) -/
+/-! ### `validate_parse_tree` (build.rs 264–343) -/
+
+/-- body of `for child in [left, right].into_iter().flatten()` -/
+def validateChild (nodes : Array ParseNode) (index : Nat) (visited : Array Bool) (stack : Array Nat) (child : Nat) :
+    Outcome (Array Bool × Array Nat) :=
+  -- match (nodes.get(child), visited.get_mut(child))
+  match nodes[child]?, visited[child]? with
+  | some childNode, some childVisited =>
+    if childNode.parent != some index then buildErr            -- "node {} is a child of node {} but has parent {:?}"
+    else if childVisited then buildErr                        -- "node {} is referenced more than once"
+    else
+      -- *child_visited = true; stack.push(child)
+      .ok (visited.setIfInBounds child true, stack.push child)
+  | _, _ => buildErr                                          -- "refers to child {} which is outside of node list"
+
+/-- `while let Some(index) = stack.pop() { .. }` of `validate_parse_tree`.  Every push marks a fresh node as
+    visited, so the loop body runs at most `nodes.len()` times; `fuel` only makes the recursion structural. -/
+def validateLoop (nodes : Array ParseNode) : (fuel : Nat) → (visited : Array Bool) → (stack : Array Nat) → Outcome (Array Bool)
+  | 0, _, _ => .fuelOut
+  | fuel + 1, visited, stack =>
+    match stack.back? with
+    | none => .ok visited
+    | some index =>
+      let stack := stack.pop
+      match nodes[index]? with
+      | none => buildErr                                      -- "no node at index {}"
+      | some node =>
+        let r1 : Outcome (Array Bool × Array Nat) :=
+          match node.left with
+          | none => .ok (visited, stack)
+          | some child => validateChild nodes index visited stack child
+        Outcome.bind r1 fun (visited, stack) =>
+        let r2 : Outcome (Array Bool × Array Nat) :=
+          match node.right with
+          | none => .ok (visited, stack)
+          | some child => validateChild nodes index visited stack child
+        Outcome.bind r2 fun (visited, stack) => validateLoop nodes fuel visited stack
+
+def validateParseTree (root : Nat) (nodes : Array ParseNode) : Outcome Unit :=
+  match nodes[root]? with
+  | none => buildErr                                          -- "root index {} is outside of node list"
+  | some node =>
+    match node.parent with
+    | some _ => buildErr                                      -- "root node {} has parent {}"
+    | none =>
+      -- let mut visited = vec![false; nodes.len()]; visited[root] = true;       (root is in range here)
+      let visited := (Array.replicate nodes.size false).setIfInBounds root true
+      Outcome.bind (validateLoop nodes (nodes.size + 1) visited #[root]) fun visited =>
+        -- for (index, (node, visited)) in nodes.iter().zip(visited.iter()).enumerate()
+        if (nodes.toList.zip visited.toList).all (fun (node, v) => v || node.definition == .subexpression) then .ok ()
+        else buildErr                                         -- "node {} is not part of the tree with root {}"
+
+/-! ### `build` (build.rs 158–262) -/
 
 /-- the statements after `handle_parse_node(..)?` in the inner loop (lines 225–236) -/
 def afterHandle (nodes : Nodes) (nodeIndex : Nat) : Outcome Nodes :=
@@ -727,18 +780,24 @@ def rootLoop (parseTree : Array ParseNode) : (rootFuel stepFuel : Nat) → Ctx F
 /-- fuel that suffices for every parse tree that is a proper tree (each node is popped at most twice) -/
 def defaultFuel (n : Nat) : Nat := 20 * n + 100
 
+/-- the part of `build` after `validate_parse_tree(..)?` (lines 171–261), i.e. `build` as it was before commit 467354e -/
+def buildCore (fuel : Nat) (parseRoot : Nat) (parseTree : Array ParseNode) (data : BState F) : Outcome (BState F × Nat) :=
+  let nodes : Nodes := Array.replicate parseTree.size none
+  -- same as root jump index but this one needs to be returned
+  let treeRootJump := getJumpTableLen data
+  Outcome.bind (setNodeIdx nodes parseRoot (BuildNode.new parseRoot treeRootJump) "build.rs:178") fun nodes =>
+  let ctx : Ctx F := { data, nodes, rootStack := #[parseRoot], stack := #[] }
+  Outcome.bind (rootLoop parseFloat parseTree fuel fuel ctx) fun ctx =>
+    .ok (ctx.data, treeRootJump)
+
 /-- `build(parse_root, parse_tree, data)`: `Ok(BuildData { jump_index, .. })` is `.ok (data', jump_index)` -/
 def build (fuel : Nat) (parseRoot : Nat) (parseTree : Array ParseNode) (data : BState F) : Outcome (BState F × Nat) :=
   if parseTree.isEmpty then
     .ok (pushInstr data .endExpression none none, 0)
   else
-    let nodes : Nodes := Array.replicate parseTree.size none
-    -- same as root jump index but this one needs to be returned
-    let treeRootJump := getJumpTableLen data
-    Outcome.bind (setNodeIdx nodes parseRoot (BuildNode.new parseRoot treeRootJump) "build.rs:176") fun nodes =>
-    let ctx : Ctx F := { data, nodes, rootStack := #[parseRoot], stack := #[] }
-    Outcome.bind (rootLoop parseFloat parseTree fuel fuel ctx) fun ctx =>
-      .ok (ctx.data, treeRootJump)
+    -- validate_parse_tree(parse_root, &parse_tree)?;
+    Outcome.bind (validateParseTree parseRoot parseTree) fun _ =>
+      buildCore parseFloat fuel parseRoot parseTree data
 
 end
 
